@@ -3628,7 +3628,15 @@ class NameCheckVisitor(node_visitor.ReplacingNodeVisitor):
             return Constraint(varname, ConstraintType.predicate, positive, predicate)
         elif isinstance(op, (ast.In, ast.NotIn)) and is_right:
             try:
-                predicate_vals = list(other_val)
+                if isinstance(other_val, (set, frozenset)):
+                    # Sets have no defined iteration order: sort, so that the union the
+                    # variable is narrowed to lists its members the same way on every run.
+                    predicate_vals = sorted(
+                        other_val, key=lambda val: (type(val).__name__, repr(val))
+                    )
+                    other_val = predicate_vals
+                else:
+                    predicate_vals = list(other_val)
                 predicate_types = {type(val) for val in predicate_vals}
                 if len(predicate_types) == 1:
                     pattern_type = next(iter(predicate_types))
